@@ -190,7 +190,11 @@ impl Monitor for C15 {
                     out_local.violate("C15", &format!("add_parent_result/{kind}"), format!("add_parent({p},{c}) returned {:?}; parent present: {}, child present: {}", res.is_ok(), present.contains(&p), present.contains(&c)));
                 }
                 if res.is_ok() {
-                    f.edges.push((c, p));
+                    // (an accepted call that names an absent term is reported above; it cannot be part of
+                    // the model, which only knows the terms that exist)
+                    if should_ok {
+                        f.edges.push((c, p));
+                    }
                 } else {
                     failing_calls += 1;
                 }
@@ -324,9 +328,11 @@ impl Monitor for C15 {
                     out_local.violate("C15", &format!("annotate_result/{kind}"), format!("annotate_{}({rid}, _, {term}) returned ok={} although term present = {should_ok}", KIND_NAMES[k], res.is_ok()));
                 }
                 if res.is_ok() {
-                    match existing {
-                        Some(i) => f.recs[k][i].terms.push(term),
-                        None => f.recs[k].push(RecFact { id: rid, name: call_name, terms: vec![term] }),
+                    if should_ok {
+                        match existing {
+                            Some(i) => f.recs[k][i].terms.push(term),
+                            None => f.recs[k].push(RecFact { id: rid, name: call_name, terms: vec![term] }),
+                        }
                     }
                 } else {
                     failing_calls += 1;
